@@ -1,13 +1,86 @@
 (** Property C10 - a generated message is always a valid, self-consistent frame after any calls.
-    Theorems are about Gen/History.v (operations of the generated API over the descriptor interpreter). *)
+    Theorems are about Gen/History.v: the operations of the generated API (New, Reset, raw setters,
+    CopyFrom, UnmarshalFrame, Frame) over the descriptor interpreter of C03. Physical setters
+    compose the raw range invariant with C09's saturation theorem (descriptor family); the harness
+    checks their results against the invariant on every run.
+    Hypotheses (DESIGN.md 4.3): [wf_message] layout as in C03; [wf_mux]: the multiplexer signal is not
+    itself multiplexed and not a float; [wf_defaults]: start values inside the raw range;
+    [wf_header]: the ID fits its format and the length is at most 8. *)
 From Coq Require Import ZArith List Bool.
-From CanVerif Require Import Can.Data Descriptor.Types Gen.Message Gen.MessageProofs Gen.History.
+From CanVerif Require Import Can.Data Descriptor.Types Gen.Message Gen.MessageProofs Gen.History
+  Gen.Layout Gen.LayoutProofs Gen.RoundTrip Gen.HistoryProofs.
 Import ListNotations.
 Open Scope Z_scope.
 
-(** the produced frame always carries the message's ID, length and ID format *)
+(** construction / reset restore the declared start values, which satisfy the invariant *)
+Theorem C10_new_inv : forall m, wf_defaults m -> inv (msg_signals m) (new_state m) = true.
+Proof. exact reset_inv. Qed.
+Print Assumptions C10_new_inv.
+
+(** every operation (reset, raw setter with ANY argument of the accessor type, copy-from, unmarshal of
+    any frame, accepted or rejected) preserves the range invariant of the instance it is applied to *)
+Theorem C10_step_inv : forall m this other o,
+  wf_message m -> wf_mux m -> wf_defaults m -> op_ok m o ->
+  inv (msg_signals m) this = true -> inv (msg_signals m) other = true ->
+  inv (msg_signals m) (snd (step m this other o)) = true.
+Proof. exact step_inv. Qed.
+Print Assumptions C10_step_inv.
+
+(** hence, by induction over ALL finite operation sequences on two instances of a message, every
+    reachable pair of states satisfies the invariant *)
+Theorem C10_all_histories_inv : forall m ops a b,
+  wf_message m -> wf_mux m -> wf_defaults m -> Forall (fun wo => op_ok m (snd wo)) ops ->
+  inv (msg_signals m) a = true -> inv (msg_signals m) b = true ->
+  inv (msg_signals m) (fst (run m ops (a, b))) = true /\ inv (msg_signals m) (snd (run m ops (a, b))) = true.
+Proof. exact run_inv. Qed.
+Print Assumptions C10_all_histories_inv.
+
+(** the produced frame always passes validation and carries the message's ID, length and format *)
+Theorem C10_frame_valid : forall m st, wf_header m -> frame_valid (frame_of m st) = true.
+Proof. exact frame_valid_of_inv. Qed.
+Print Assumptions C10_frame_valid.
 Theorem C10_frame_header : forall m st,
   let f := frame_of m st in
   fr_id f = msg_id m /\ fr_length f = msg_length m /\ fr_extended f = msg_extended m /\ fr_remote f = false.
 Proof. exact frame_of_header. Qed.
 Print Assumptions C10_frame_header.
+
+(** unmarshalling the frame into any message (in particular a fresh one) and marshalling again
+    reproduces the identical frame; bits of one signal never leak into another (C03_encode_bits) *)
+Theorem C10_reencode : forall m st st0,
+  wf_message m -> wf_mux m -> inv (msg_signals m) st = true -> inv (msg_signals m) st0 = true ->
+  exists st', unmarshal m (frame_of m st) st0 = inr st' /\
+              inv (msg_signals m) st' = true /\ frame_of m st' = frame_of m st.
+Proof. exact reencode. Qed.
+Print Assumptions C10_reencode.
+
+(** copy-from yields a message with the identical frame; the source is a value, never aliased:
+    [step] returns only the new state of the instance it is applied to *)
+Theorem C10_copy : forall m st other,
+  wf_message m -> wf_mux m -> inv (msg_signals m) st = true -> inv (msg_signals m) other = true ->
+  inv (msg_signals m) (copy_from m st other) = true /\ frame_of m (copy_from m st other) = frame_of m other.
+Proof. exact copy_from_spec. Qed.
+Print Assumptions C10_copy.
+
+(** all clauses together for every reachable state *)
+Theorem C10_reachable : forall m ops,
+  wf_message m -> wf_mux m -> wf_defaults m -> wf_header m -> Forall (fun wo => op_ok m (snd wo)) ops ->
+  let '(a, b) := run m ops (new_state m, new_state m) in
+  inv (msg_signals m) a = true /\ inv (msg_signals m) b = true /\
+  frame_valid (frame_of m a) = true /\ frame_valid (frame_of m b) = true /\
+  (exists a', unmarshal m (frame_of m a) (new_state m) = inr a' /\ frame_of m a' = frame_of m a).
+Proof. exact reachable_ok. Qed.
+Print Assumptions C10_reachable.
+
+(** non-vacuity: a history on the example message of C03 *)
+From CanVerif Require Import Properties.C03.
+Example C10_nonvacuous :
+  let m := C03_example_message in
+  let ops := [(false, OpSetRaw 2 (-3000)); (true, OpSetRaw 0 9); (false, OpCopy); (true, OpSetRaw 4 0x7F800000)] in
+  wf_defaults m /\ wf_header m /\ wf_mux m /\
+  run m ops (new_state m, new_state m) = ([9; 0; -2048; 0; 0], [9; 0; 0; 0; 0x7F7FFFFF]).
+Proof.
+  cbv zeta. split; [repeat constructor|]. split; [vm_compute; intuition congruence|].
+  split; [|vm_compute; reflexivity].
+  intros i s Hm Hn. vm_compute in Hm. inversion Hm; subst. vm_compute in Hn. inversion Hn; subst. split; reflexivity.
+Qed.
